@@ -77,12 +77,12 @@ def bisimClosed {σ τ : Type} [DecidableEq σ] [DecidableEq τ] (rel : Bool →
     (B.cuts pq.2).all (alpha.contains ·) &&
     alpha.all fun a => seen.contains (A.step pq.1 a, B.step pq.2 a)
 
-def dedupNat : List Nat → List Nat
+def dedupNatR : List Nat → List Nat
   | [] => []
-  | x :: xs => if xs.contains x then dedupNat xs else x :: dedupNat xs
+  | x :: xs => if xs.contains x then dedupNatR xs else x :: dedupNatR xs
 
 def alphabetOf {σ τ : Type} (A : Aut σ) (B : Aut τ) (p0 : σ) (q0 : τ) : List Nat :=
-  dedupNat (0 :: (A.cuts p0 ++ B.cuts q0))
+  dedupNatR (0 :: (A.cuts p0 ++ B.cuts q0))
 
 /-- The verified checker: `true` only if the two start states accept the same strings. -/
 def autRel {σ τ : Type} [DecidableEq σ] [DecidableEq τ] (rel : Bool → Bool → Bool) (A : Aut σ) (B : Aut τ)
